@@ -1337,6 +1337,18 @@ def _modified(stmts):
     return out
 
 
+class Poison:
+    """value of a non numeric local after a loop that reassigns it (unknown)"""
+
+    def __init__(self, name, tname):
+        self.name, self.tname = name, tname
+
+    def __repr__(self):
+        return f"<unknown {self.tname} {self.name} after a loop>"
+
+    __hash__ = None
+
+
 def havoc_value(v, name):
     if isinstance(v, bool):
         return SV(z3.Bool(fresh_name(name)))
@@ -1351,7 +1363,9 @@ def havoc_value(v, name):
     if v is None:
         return None
     if isinstance(v, (str, slice, tuple)) and not has_symbolic(v):
-        raise Unsupported(f"loop reassigns {name} of type {type(v).__name__} (no havoc rule)")
+        # its value after the loop is unknown: a poison object - harmless when the code assigns the name again before reading it,
+        # and any use of it ends the harness as undecided (TypeError / KeyError on a harness object), never as a verdict
+        return Poison(name, type(v).__name__)
     raise Unsupported(f"no havoc rule for {name}: {type(v).__name__}")
 
 
